@@ -9,7 +9,8 @@ Spec:  `Karp/Spec/Finalize.lean` (judged on ground-truth snapshots; shares no co
 
 Shape of the result
 * single pass, ALL observations x ALL fault vectors x ALL provider answers:
-  `C09_node_finalizer`, `C09_instance_delete_in_order`, `C09_min_drain_time`, `C09_claim_finalizer_partial`;
+  `C09_node_finalizer`, `C09_instance_delete_in_order`, `C09_min_drain_time`, `C09_claim_finalizer_partial`,
+  `C09_attachment_state_irrelevant`, `C09_existing_attachment_blocks` (volume attachments in transitional states);
 * ALL histories of the transition system from ANY world (any order of reconciles, any faults / crashes / restarts, pods
   and volumes leaving at any time): `C09_step_ordered`, `C09_histories_ordered`;
 * leak-freedom as an invariant over ALL histories, under "a launch persists its provider id":
@@ -56,6 +57,12 @@ theorem fact_requeues_positive :
     (Finalize.requeueDrainNs ++ Finalize.requeueVolumesNs ++ Finalize.requeueInstanceNs ++ Finalize.requeueClaimInstanceNs).all (· > 0) = true ∧
     Finalize.requeueDrainNs.length = 2 ∧ Finalize.requeueVolumesNs.length = 1 ∧ Finalize.requeueInstanceNs.length = 1 ∧
     Finalize.requeueClaimInstanceNs.length = 1 := by decide
+
+/-- the volume-detachment stage decides on a VolumeAttachment by its persistent volume name alone: neither a
+    deletionTimestamp (an attachment that is deleted but still held by the external-attacher's finalizer is not "gone"),
+    nor finalizers, nor `status.attached` make an attachment stop blocking (property: "blocking volume attachments are
+    gone or the termination grace period has expired") -/
+theorem fact_va_filter_reads : Finalize.vaFilterReads = ["Spec.Source.PersistentVolumeName"] := by decide
 
 /-! ## Single pass: the node termination controller -/
 
@@ -111,6 +118,42 @@ theorem C09_instance_delete_in_order (now : Int) (n : NodeObs) (claims : List Cl
   unfold instanceDeleteOk NodeSnap.orderly
   rw [hd', hv']
   simp [nodeSnap, ht']
+
+/-- **C09_attachment_state_irrelevant** — the whole pass (calls, result, conditions written, finalizer removal) is the
+    same whatever deletion marks and attached statuses the node's VolumeAttachments carry: an attachment that the
+    attach-detach controller has deleted but that still exists (detach in progress) is treated like any other. -/
+theorem C09_attachment_state_irrelevant (g : VA → Bool × Bool) (now : Int) (n : NodeObs) (claims : List ClaimObs) (pods : List Pod)
+    (vas : List VA) (f : NodeFaults) (getOut delOut : ProvOut) :
+    nodeReconcile now n claims pods (vas.map (VA.remark g)) f getOut delOut = nodeReconcile now n claims pods vas f getOut delOut := by
+  unfold nodeReconcile nodeFromReady nodeFromTaint
+  simp only [runStages_remark]
+
+/-- **C09_existing_attachment_blocks** — for every observation, fault vector and provider answers: while some
+    VolumeAttachment object of the node exists for a persistent volume that no undrainable pod mounts — terminating or
+    not, attached or not — and the termination deadline has not passed, the node termination controller does not ask
+    the provider to terminate the instance, and does not remove the finalizer of a Ready node. -/
+theorem C09_existing_attachment_blocks (now : Int) (n : NodeObs) (claims : List ClaimObs) (pods : List Pod) (vas : List VA)
+    (f : NodeFaults) (getOut delOut : ProvOut) (v : VA) (k : Nat)
+    (hv : v ∈ vas) (hon : v.onNode = true) (hk : v.pv = some k) (hns : (shieldedPVs now .ok pods).contains k = false)
+    (hdl : elapsed now (termOf (nodeClaimOf n claims)) = false) :
+    Act.providerDelete ∉ (nodeReconcile now n claims pods vas f getOut delOut).calls ∧
+    (n.ready = true → (nodeReconcile now n claims pods vas f getOut delOut).removed = false) := by
+  have hmem := mem_pendingVAs now f.getPVC pods vas v k hv hon hk hns
+  have hne : ¬ (pendingVAs now f.getPVC pods vas = [] ∨ elapsed now (termOf (nodeClaimOf n claims)) = true) := by
+    intro h
+    rcases h with h | h
+    · rw [h] at hmem; cases hmem
+    · rw [hdl] at h; cases h
+  constructor
+  · intro h
+    exact hne (nodeReconcile_providerDelete _ _ _ _ _ _ _ _ h).2.2
+  · intro hready
+    cases hr : (nodeReconcile now n claims pods vas f getOut delOut).removed
+    · rfl
+    · obtain ⟨_, hpath⟩ := nodeReconcile_removed _ _ _ _ _ _ _ _ hr
+      rcases hpath with ⟨hnr, _⟩ | hp
+      · rw [hready] at hnr; cases hnr
+      · exact absurd hp.volumes hne
 
 /-- the code also waits `MinDrainTime` after the drain started (more than the property asks): a pass that removes the
     finalizer of a Ready node found a Drained condition on the claim, and if that condition was still Unknown, at
@@ -350,6 +393,29 @@ def happyPath : List Event :=
     reconciles (so the hypotheses of the step theorems are met by concrete passes) -/
 example : (run runningWorld happyPath).node = none ∧ (run runningWorld happyPath).claim = none ∧
     (run runningWorld happyPath).inst = .gone ∧ launchesPersist runningWorld happyPath = true := by decide
+
+/-- the attach-detach controller deletes the attachment, the detach lingers: the node keeps its finalizer and the
+    instance runs on over any number of reconciles; once the object is gone the history completes
+    (hypotheses of `C09_existing_attachment_blocks` are met by the terminating attachment in the middle) -/
+def lingeringDetach : List Event :=
+  [.deleteClaim, reconcileClaimOk, rn, .podGone "pod-0", rn, .tick 5000000000, rn, .vaTerminating "va-0", rn, .tick 60000000000, rn]
+
+example :
+    let w := run runningWorld lingeringDetach
+    (w.vas.map (·.terminating)) = [true] ∧ (w.node.map (·.finalizer)) = some true ∧ w.inst = .running ∧
+    (w.claim.map (·.vol)) = some .unknown ∧
+    (run w [.vaGone "va-0", rn, .instanceGone, rn, reconcileClaimOk]).node = none ∧
+    (run w [.vaGone "va-0", rn, .instanceGone, rn, reconcileClaimOk]).claim = none := by decide
+
+/-- an attachment appears after `VolumesDetached` was recorded True and the instance was asked to terminate: the stage
+    goes back to waiting (Unknown) and the finalizer stays although the instance then disappears -/
+example :
+    let w0 : World := { runningWorld with pods := [], vas := [] }
+    let w1 := run w0 [.deleteNode, rn, rn, .tick 6000000000, rn, rn]
+    let w2 := run w1 [.vaAdd { name := "va-late", pv := some 3, onNode := true }, rn, .instanceGone, rn]
+    (w1.claim.map (·.vol)) = some .true_ ∧ w1.inst = .terminating ∧
+    (w2.claim.map (·.vol)) = some .unknown ∧ (w2.node.map (·.finalizer)) = some true ∧ w2.inst = .gone ∧
+    (run w2 [.vaGone "va-late", rn, rn]).node = none := by decide
 
 /-- a pass that removes the Node's finalizer through the ordered path (hypotheses of `C09_node_finalizer`) -/
 example :
